@@ -73,6 +73,9 @@ theories/Model/DistFallback.vos theories/Model/DistFallback.vok theories/Model/D
 theories/Model/DistHistory.vo theories/Model/DistHistory.glob theories/Model/DistHistory.v.beautified theories/Model/DistHistory.required_vo: theories/Model/DistHistory.v theories/Model/DistStatus.vo theories/Model/DistFallback.vo
 theories/Model/DistHistory.vio: theories/Model/DistHistory.v theories/Model/DistStatus.vio theories/Model/DistFallback.vio
 theories/Model/DistHistory.vos theories/Model/DistHistory.vok theories/Model/DistHistory.required_vos: theories/Model/DistHistory.v theories/Model/DistStatus.vos theories/Model/DistFallback.vos
+theories/Model/DistRustInputs.vo theories/Model/DistRustInputs.glob theories/Model/DistRustInputs.v.beautified theories/Model/DistRustInputs.required_vo: theories/Model/DistRustInputs.v 
+theories/Model/DistRustInputs.vio: theories/Model/DistRustInputs.v 
+theories/Model/DistRustInputs.vos theories/Model/DistRustInputs.vok theories/Model/DistRustInputs.required_vos: theories/Model/DistRustInputs.v 
 theories/Model/DistStatus.vo theories/Model/DistStatus.glob theories/Model/DistStatus.v.beautified theories/Model/DistStatus.required_vo: theories/Model/DistStatus.v 
 theories/Model/DistStatus.vio: theories/Model/DistStatus.v 
 theories/Model/DistStatus.vos theories/Model/DistStatus.vok theories/Model/DistStatus.required_vos: theories/Model/DistStatus.v 
@@ -205,6 +208,9 @@ theories/Proofs/DistFallback.vos theories/Proofs/DistFallback.vok theories/Proof
 theories/Proofs/DistHistory.vo theories/Proofs/DistHistory.glob theories/Proofs/DistHistory.v.beautified theories/Proofs/DistHistory.required_vo: theories/Proofs/DistHistory.v theories/Model/DistStatus.vo theories/Model/DistFallback.vo theories/Model/DistHistory.vo theories/Proofs/DistStatus.vo theories/Proofs/DistFallback.vo
 theories/Proofs/DistHistory.vio: theories/Proofs/DistHistory.v theories/Model/DistStatus.vio theories/Model/DistFallback.vio theories/Model/DistHistory.vio theories/Proofs/DistStatus.vio theories/Proofs/DistFallback.vio
 theories/Proofs/DistHistory.vos theories/Proofs/DistHistory.vok theories/Proofs/DistHistory.required_vos: theories/Proofs/DistHistory.v theories/Model/DistStatus.vos theories/Model/DistFallback.vos theories/Model/DistHistory.vos theories/Proofs/DistStatus.vos theories/Proofs/DistFallback.vos
+theories/Proofs/DistRustInputs.vo theories/Proofs/DistRustInputs.glob theories/Proofs/DistRustInputs.v.beautified theories/Proofs/DistRustInputs.required_vo: theories/Proofs/DistRustInputs.v theories/Model/DistRustInputs.vo
+theories/Proofs/DistRustInputs.vio: theories/Proofs/DistRustInputs.v theories/Model/DistRustInputs.vio
+theories/Proofs/DistRustInputs.vos theories/Proofs/DistRustInputs.vok theories/Proofs/DistRustInputs.required_vos: theories/Proofs/DistRustInputs.v theories/Model/DistRustInputs.vos
 theories/Proofs/DistStatus.vo theories/Proofs/DistStatus.glob theories/Proofs/DistStatus.v.beautified theories/Proofs/DistStatus.required_vo: theories/Proofs/DistStatus.v theories/Model/DistStatus.vo
 theories/Proofs/DistStatus.vio: theories/Proofs/DistStatus.v theories/Model/DistStatus.vio
 theories/Proofs/DistStatus.vos theories/Proofs/DistStatus.vok theories/Proofs/DistStatus.required_vos: theories/Proofs/DistStatus.v theories/Model/DistStatus.vos
@@ -316,9 +322,9 @@ theories/Properties/C11.vos theories/Properties/C11.vok theories/Properties/C11.
 theories/Properties/C12.vo theories/Properties/C12.glob theories/Properties/C12.v.beautified theories/Properties/C12.required_vo: theories/Properties/C12.v theories/Model/CompilerCache.vo theories/Proofs/CompilerCache.vo
 theories/Properties/C12.vio: theories/Properties/C12.v theories/Model/CompilerCache.vio theories/Proofs/CompilerCache.vio
 theories/Properties/C12.vos theories/Properties/C12.vok theories/Properties/C12.required_vos: theories/Properties/C12.v theories/Model/CompilerCache.vos theories/Proofs/CompilerCache.vos
-theories/Properties/C13.vo theories/Properties/C13.glob theories/Properties/C13.v.beautified theories/Properties/C13.required_vo: theories/Properties/C13.v theories/Base/Sx.vo theories/Model/DistStatus.vo theories/Model/DistFallback.vo theories/Model/DistArgs.vo theories/Model/DistHistory.vo theories/Proofs/DistStatus.vo theories/Proofs/DistFallback.vo theories/Proofs/DistArgs.vo theories/Proofs/DistHistory.vo
-theories/Properties/C13.vio: theories/Properties/C13.v theories/Base/Sx.vio theories/Model/DistStatus.vio theories/Model/DistFallback.vio theories/Model/DistArgs.vio theories/Model/DistHistory.vio theories/Proofs/DistStatus.vio theories/Proofs/DistFallback.vio theories/Proofs/DistArgs.vio theories/Proofs/DistHistory.vio
-theories/Properties/C13.vos theories/Properties/C13.vok theories/Properties/C13.required_vos: theories/Properties/C13.v theories/Base/Sx.vos theories/Model/DistStatus.vos theories/Model/DistFallback.vos theories/Model/DistArgs.vos theories/Model/DistHistory.vos theories/Proofs/DistStatus.vos theories/Proofs/DistFallback.vos theories/Proofs/DistArgs.vos theories/Proofs/DistHistory.vos
+theories/Properties/C13.vo theories/Properties/C13.glob theories/Properties/C13.v.beautified theories/Properties/C13.required_vo: theories/Properties/C13.v theories/Base/Sx.vo theories/Model/DistStatus.vo theories/Model/DistFallback.vo theories/Model/DistArgs.vo theories/Model/DistHistory.vo theories/Model/DistRustInputs.vo theories/Proofs/DistStatus.vo theories/Proofs/DistFallback.vo theories/Proofs/DistArgs.vo theories/Proofs/DistHistory.vo theories/Proofs/DistRustInputs.vo
+theories/Properties/C13.vio: theories/Properties/C13.v theories/Base/Sx.vio theories/Model/DistStatus.vio theories/Model/DistFallback.vio theories/Model/DistArgs.vio theories/Model/DistHistory.vio theories/Model/DistRustInputs.vio theories/Proofs/DistStatus.vio theories/Proofs/DistFallback.vio theories/Proofs/DistArgs.vio theories/Proofs/DistHistory.vio theories/Proofs/DistRustInputs.vio
+theories/Properties/C13.vos theories/Properties/C13.vok theories/Properties/C13.required_vos: theories/Properties/C13.v theories/Base/Sx.vos theories/Model/DistStatus.vos theories/Model/DistFallback.vos theories/Model/DistArgs.vos theories/Model/DistHistory.vos theories/Model/DistRustInputs.vos theories/Proofs/DistStatus.vos theories/Proofs/DistFallback.vos theories/Proofs/DistArgs.vos theories/Proofs/DistHistory.vos theories/Proofs/DistRustInputs.vos
 theories/Properties/C14.vo theories/Properties/C14.glob theories/Properties/C14.v.beautified theories/Properties/C14.required_vo: theories/Properties/C14.v theories/Base/Sx.vo theories/Model/Stats.vo theories/Model/ReqSM.vo theories/Proofs/Stats.vo theories/Proofs/ReqSM.vo
 theories/Properties/C14.vio: theories/Properties/C14.v theories/Base/Sx.vio theories/Model/Stats.vio theories/Model/ReqSM.vio theories/Proofs/Stats.vio theories/Proofs/ReqSM.vio
 theories/Properties/C14.vos theories/Properties/C14.vok theories/Properties/C14.required_vos: theories/Properties/C14.v theories/Base/Sx.vos theories/Model/Stats.vos theories/Model/ReqSM.vos theories/Proofs/Stats.vos theories/Proofs/ReqSM.vos
@@ -382,9 +388,9 @@ theories/Run/C11.vos theories/Run/C11.vok theories/Run/C11.required_vos: theorie
 theories/Run/C12.vo theories/Run/C12.glob theories/Run/C12.v.beautified theories/Run/C12.required_vo: theories/Run/C12.v theories/Base/Sx.vo theories/Model/CompilerCache.vo theories/Gen/C12Window.vo
 theories/Run/C12.vio: theories/Run/C12.v theories/Base/Sx.vio theories/Model/CompilerCache.vio theories/Gen/C12Window.vio
 theories/Run/C12.vos theories/Run/C12.vok theories/Run/C12.required_vos: theories/Run/C12.v theories/Base/Sx.vos theories/Model/CompilerCache.vos theories/Gen/C12Window.vos
-theories/Run/C13.vo theories/Run/C13.glob theories/Run/C13.v.beautified theories/Run/C13.required_vo: theories/Run/C13.v theories/Base/Sx.vo theories/Model/DistStatus.vo theories/Model/DistFallback.vo theories/Model/DistArgs.vo theories/Model/DistHistory.vo
-theories/Run/C13.vio: theories/Run/C13.v theories/Base/Sx.vio theories/Model/DistStatus.vio theories/Model/DistFallback.vio theories/Model/DistArgs.vio theories/Model/DistHistory.vio
-theories/Run/C13.vos theories/Run/C13.vok theories/Run/C13.required_vos: theories/Run/C13.v theories/Base/Sx.vos theories/Model/DistStatus.vos theories/Model/DistFallback.vos theories/Model/DistArgs.vos theories/Model/DistHistory.vos
+theories/Run/C13.vo theories/Run/C13.glob theories/Run/C13.v.beautified theories/Run/C13.required_vo: theories/Run/C13.v theories/Base/Sx.vo theories/Model/DistStatus.vo theories/Model/DistFallback.vo theories/Model/DistArgs.vo theories/Model/DistHistory.vo theories/Model/DistRustInputs.vo
+theories/Run/C13.vio: theories/Run/C13.v theories/Base/Sx.vio theories/Model/DistStatus.vio theories/Model/DistFallback.vio theories/Model/DistArgs.vio theories/Model/DistHistory.vio theories/Model/DistRustInputs.vio
+theories/Run/C13.vos theories/Run/C13.vok theories/Run/C13.required_vos: theories/Run/C13.v theories/Base/Sx.vos theories/Model/DistStatus.vos theories/Model/DistFallback.vos theories/Model/DistArgs.vos theories/Model/DistHistory.vos theories/Model/DistRustInputs.vos
 theories/Run/C14.vo theories/Run/C14.glob theories/Run/C14.v.beautified theories/Run/C14.required_vo: theories/Run/C14.v theories/Base/Sx.vo theories/Run/C09.vo
 theories/Run/C14.vio: theories/Run/C14.v theories/Base/Sx.vio theories/Run/C09.vio
 theories/Run/C14.vos theories/Run/C14.vok theories/Run/C14.required_vos: theories/Run/C14.v theories/Base/Sx.vos theories/Run/C09.vos
